@@ -7,6 +7,7 @@ package blob
 // Blocks are built with the real go-square square builder from random multisets of blobs (1 byte .. several rows, share
 // versions 0 and 1, few/many namespaces, duplicates, several blobs per transaction) plus ordinary transactions, and as
 // hand-placed share sequences with arbitrary padding runs.  The real blob.Service runs over an in-memory getter.
+// Every run also has blocks whose namespace spans more than 16 rows of a 32-wide square (c11GenLong).
 //
 // L3: GetAll / Get are compared with the builder's own record (blobs in square order, start index written into the PFB).
 // L2: the namespace rows the getter handed to the service are abstracted to the share records of CN.Blob.Parser and
